@@ -14,10 +14,8 @@ On break: harness `oracle` evaluates the property statement on the real code (Go
 """
 import os
 
-HERE = os.path.dirname(os.path.dirname(os.path.abspath(__file__)))
-HAVE_VHOSTS = os.path.exists(os.path.join(HERE, "lean", "IstioModel", "C12", "VHostsTheorems.lean"))
-THEOREMS = ["IstioModel.C12.Theorems"] + (["IstioModel.C12.VHostsTheorems"] if HAVE_VHOSTS else [])
-STREAMS = ("routes", "requests") + (("vhosts", "rds") if HAVE_VHOSTS else ())
+THEOREMS = ["IstioModel.C12.Theorems", "IstioModel.C12.VHostsTheorems", "IstioModel.C12.GatewayTheorems"]
+STREAMS = ("routes", "requests", "vhosts", "rds", "gw")
 
 WHAT = {
     "withoutHeaders-pattern-accepts-empty-and-header-absent":
@@ -27,6 +25,8 @@ WHAT = {
         "sidecar path: a VirtualService destination without explicit port whose (single-port) service does not expose the listener "
         "port is resolved against a registry restricted to the listener port, so the cluster gets the LISTENER port instead of the "
         "service's only port (API: 'if a service exposes only a single port it is not required to explicitly select the port')",
+    "gateway-decision": "gateway route configuration (host intersection, merged VirtualServices, SortVHostRoutes, httpsRedirect) decides a "
+                        "request differently from the gateway spec",
     "mesh-decision": "end to end (virtual-host selection by authority, then first matching route) the real sidecar route configuration "
                      "decides a request differently from the applicable VirtualService / default route",
     "alt-host-sound":
@@ -106,7 +106,7 @@ def oracle(ctx, stream, case_lines, rep):
 
 
 def nontrivial(case_ops, outs):
-    return any(l.startswith(("build", "req", "dom", "sel", "sortv", "msh", "rds", "rreq")) for l in case_ops)
+    return any(l.startswith(("build", "req", "dom", "sel", "sortv", "msh", "rds", "rreq", "grds", "greq")) for l in case_ops)
 
 
 def run(ctx):
@@ -141,25 +141,25 @@ def run(ctx):
     cdir = os.path.join(os.path.dirname(os.path.dirname(os.path.abspath(__file__))), "harness", "corpus", ctx.pid)
     if os.path.isdir(cdir):
         for f in sorted(os.listdir(cdir)):
-            if f.endswith(".ops") and ".invalid." not in f and not f.startswith(("vhosts.", "rds.", "known-rds.")):
+            if f.endswith(".ops") and ".invalid." not in f and not f.startswith(("vhosts.", "rds.", "known-rds.", "gw.")):
                 rc, out = ctx.harness("validate", os.path.join(cdir, f))
                 last = out.strip().split("\n")[-1] if out.strip() else ""
                 if rc != 0 or not last.endswith("invalid 0"):
                     ctx.tie_broken("corpus-validity:" + f, "corpus file contains a VirtualService the real validator rejects:\n" + out[-2000:])
     ctx.diff_stream("routes", ctx.n(5000, 150000), oracle=oracle, nontrivial=nontrivial)
     ctx.diff_stream("requests", ctx.n(6000, 200000), oracle=oracle, nontrivial=nontrivial)
-    if HAVE_VHOSTS:
-        ctx.diff_stream("vhosts", ctx.n(4000, 100000), oracle=oracle, nontrivial=nontrivial)
-        ctx.diff_stream("rds", ctx.n(1500, 25000), oracle=oracle, nontrivial=nontrivial)
+    ctx.diff_stream("vhosts", ctx.n(4000, 100000), oracle=oracle, nontrivial=nontrivial)
+    ctx.diff_stream("rds", ctx.n(1500, 25000), oracle=oracle, nontrivial=nontrivial)
+    ctx.diff_stream("gw", ctx.n(1500, 25000), oracle=oracle, nontrivial=nontrivial)
     # witnesses of the known findings (corpus only): each must still reproduce, as KNOWN-FINDING
     ctx.diff_stream("known-requests", 0, oracle=oracle, nontrivial=nontrivial)
-    if HAVE_VHOSTS:
-        ctx.diff_stream("known-rds", 0, oracle=oracle, nontrivial=nontrivial)
+    ctx.diff_stream("known-rds", 0, oracle=oracle, nontrivial=nontrivial)
     # second line: the property oracle on every generated case, independent of the Lean model
     for stream in STREAMS:
         g = os.path.join(ctx.work, "%s.gen.ops" % stream)
         if os.path.exists(g):
             fails = run_oracle(ctx, stream, g)
+            ctx.log("oracle %s done" % stream)
             if fails is None:
                 ctx.tie_broken("oracle-run:" + stream, "the property oracle did not run")
             else:
